@@ -88,6 +88,21 @@ def run(tier, seed, model_ok):
         for i, l in enumerate(lib):
             add('fl%d' % i, 'F', '%s %s' % (vlib.hx(os.path.join(root, 'app', 'app.asm')), vlib.hx(l)), 'app.asm includes cfg.inc found through include directory lib%d' % i)
         add('fl_none', 'F', '%s -' % vlib.hx(os.path.join(root, 'app', 'app.asm')), 'app.asm includes cfg.inc with no include directory: must fail')
+        # failures whose text comes from the operating system: a file that is not UTF-8 (as main file, as an include two
+        # levels down), a directory in place of a file, a missing include.  The text must name the file, not anything
+        # that depends on what else the process has open at that moment
+        for i in range(3):
+            d = os.path.join(root, 'odd%d' % i); os.makedirs(os.path.join(d, 'adir'))
+            open(os.path.join(d, 'bin.asm'), 'wb').write(b' nop\n\xff\xfe\x80 bad\n' * (i + 1))
+            open(os.path.join(d, 'bin.inc'), 'wb').write(b'; \xc3\x28\n nop\n')
+            open(os.path.join(d, 'mid.inc'), 'w').write(' nop\n.include "bin.inc"\n')
+            open(os.path.join(d, 'main.asm'), 'w').write('.equ A = %d\n.include "mid.inc"\n' % i)
+            open(os.path.join(d, 'dir.asm'), 'w').write(' nop\n.include "adir"\n')
+            open(os.path.join(d, 'gone.asm'), 'w').write(' nop\n.include "gone%d.inc"\n' % i)
+            add('ob%d' % i, 'F', '%s -' % vlib.hx(os.path.join(d, 'bin.asm')), 'main file that is not UTF-8')
+            add('oi%d' % i, 'F', '%s -' % vlib.hx(os.path.join(d, 'main.asm')), 'include, two levels down, of a file that is not UTF-8')
+            add('od%d' % i, 'F', '%s -' % vlib.hx(os.path.join(d, 'dir.asm')), 'include of a directory')
+            add('og%d' % i, 'F', '%s -' % vlib.hx(os.path.join(d, 'gone.asm')), 'include of a missing file')
         envt = {'HARNESS_ERRTEXT': '1'}
         # reference: alone, fresh process each
         ref = {}
@@ -154,20 +169,22 @@ def run(tier, seed, model_ok):
             for dp, dn, fn in os.walk(root):
                 dirs.add(dp)
                 for f in fn:
+                    if f.startswith('bin.'): continue     # not UTF-8: the model's files are texts; those cases are impl only
                     lines.append('FSFILE %s %s' % (vlib.hx(os.path.join(dp, f)), vlib.hx(open(os.path.join(dp, f)).read())))
             d = root
             while len(d) > 1: dirs.add(d); d = os.path.dirname(d)
             for d in sorted(dirs): lines.append('FSDIR ' + vlib.hx(d))
-            lines += ['%s %s %s' % c for c in cases]
+            mcases = [c for c in cases if not c[0].startswith(('ob', 'oi'))]
+            lines += ['%s %s %s' % c for c in mcases]
             mres, rc, err = vlib.run_lines(vlib.DRIVER, lines, mode=None)
-            for c in cases:
+            for c in mcases:
                 if plain.get(c[0]) != mres.get(c[0], 'MISSING'):
                     dis.append({'input': src[c[0]], 'impl': (plain.get(c[0]) or '')[:200], 'model': mres.get(c[0], 'MISSING')[:200]})
     finally:
         shutil.rmtree(root, ignore_errors=True)
     return {
         'evaluations': sum(v for k, v in dist.items()), 'distinct_nontrivial': len(set(src.values())),
-        'rule': '%d fixed programs that share symbol, alias, macro, flag and label names with different meanings, select different devices, or fail after defining things; %d seeded random symbol and macro programs (shared name pools); 4 project trees with their own board.inc and one source built with 3 different include directories. Each case is built alone in a fresh process (reference), then all are built in one process in %d orders (as listed, reversed, each three times in a row, seeded permutations) and concurrently; every result incl. the full error text must equal the reference' % (len(SHARED), nrand, len(orders)),
+        'rule': '%d fixed programs that share symbol, alias, macro, flag and label names with different meanings, select different devices, or fail after defining things; %d seeded random symbol and macro programs (shared name pools); 4 project trees with their own board.inc and one source built with 3 different include directories; 12 file builds that fail inside the operating system (file that is not UTF-8, directory in place of a file, missing include). Each case is built alone in a fresh process (reference), then all are built in one process in %d orders (as listed, reversed, each three times in a row, seeded permutations) and concurrently; every result incl. the full error text must equal the reference' % (len(SHARED), nrand, len(orders)),
         'samples': [SHARED[0], SHARED[15]],
         'exhaustive': False,
         'distribution': dict(dist, reference_results=dict(Counter(r.split()[0] for r in ref.values()))),
